@@ -341,6 +341,23 @@ theorem scan_accepts (m : Mon) (fuel : Nat) (sk : Sk) (s0 : Nat) (h : (scan m fu
     obtain ⟨s', hm, _⟩ := scan_sound m fuel sk [s0] r hs s0 (by simp) t o hrun
     simp [hm]
 
+/-- **every trace of a skeleton that passes `releasedOnEveryExit` ends without the resource**: however it ends - return, an
+exception, a cancellation delivered at any await - the monitor is in state 0 (released / never obtained) or 2 (the acquiring
+await itself did not return) -/
+theorem releasedOnEveryExit_sound (acquire release : Ev → Bool) (sk : Sk) (h : releasedOnEveryExit acquire release sk = true)
+    (t : List Ev) (o : Out) (hrun : Run sk t o) :
+    ∃ s, runMon (resourceMon acquire release) 0 t = some s ∧ (s = 0 ∨ s = 2) := by
+  unfold releasedOnEveryExit at h
+  cases hs : scan (resourceMon acquire release) 4 sk [0] with
+  | none => simp [hs] at h
+  | some r =>
+    simp only [hs] at h
+    obtain ⟨s', hm, hin⟩ := scan_sound (resourceMon acquire release) 4 sk [0] r hs 0 (by simp) t o hrun
+    have hmem : s' ∈ r.fall ++ r.brk ++ r.cont ++ r.ret ++ r.exc := by
+      cases o <;> simp [Res.get] at hin <;> simp [hin]
+    have := List.all_eq_true.mp h s' hmem
+    exact ⟨s', hm, by simpa using this⟩
+
 /-! ### from the analysis to local traces -/
 
 /-- the section monitor accepts a trace from state `b` and ends outside iff `secOK` says so -/
